@@ -158,7 +158,13 @@ def render_pvs(body, rng, style):
         nm = f"harddisk {k} ü.hdd" if d["kind"] == "Hdd" else f"media{k}.iso"
         names[k] = nm
         sn = f"<SystemName>{nm}</SystemName>" if d["sysname"] else ""
-        out.append(f'<{d["kind"]} id="{k}" dyn_lists=""><Index>{k}</Index><Enabled>1</Enabled>{sn}<UserFriendlyName>{nm}</UserFriendlyName></{d["kind"]}>')
+        # nested elements that carry their own SystemName (partition lists of Boot Camp / physical disks): not backing files
+        parts = ""
+        if rng.random() < 0.5:
+            np_ = rng.randrange(1, 4)
+            parts = "".join(f'<Partition id="{p}" dyn_lists=""><SystemName>/dev/disk{k}s{p + 1}</SystemName><Size>1024</Size></Partition>' for p in range(np_))
+        body = (parts + sn) if rng.random() < 0.5 else (sn + parts)
+        out.append(f'<{d["kind"]} id="{k}" dyn_lists="Partition {1 if parts else 0}"><Index>{k}</Index><Enabled>1</Enabled>{body}<UserFriendlyName>{nm}</UserFriendlyName></{d["kind"]}>')
     out.append("</Hardware></ParallelsVirtualMachine>")
     return "\n".join(out), names
 
@@ -272,6 +278,7 @@ def run(ctx):
 
         core.parallel(ctx, work, sts)
     vmx_dictionary_semantics(ctx)
+    vmx_unlock_history(ctx, random.Random(ctx.seed + 181))
     random_configs(ctx, random.Random(ctx.seed + 1818), 400 if thorough else 80)
 
 
@@ -326,6 +333,41 @@ def random_configs(ctx, rng, n):
             ctx.traces_validated += 1
             if verdicts[r["tid"]][0] == "reject":
                 ctx.violation({"kind": r["kind"], "fail": "disk-list", "sub": "random-configs"}, {"body": r["body"], "reported": r["reported"], "peek": r["peek"], "again": r["again"]})
+
+
+def vmx_unlock_history(ctx, rng):
+    """An encrypted VMX shows no devices before unlocking; afterwards the list is that of the decrypted configuration -
+    whatever was asked of the object before (listing, failed unlock attempts)."""
+    from dissect.hypervisor.descriptor.vmx import VMX
+    from harness import enc_vmx as E
+    for k in range(6):
+        cfg = ('scsi0.present = "TRUE"\nscsi0:0.present = "TRUE"\nscsi0:0.fileName = "enc disk %d.vmdk"\nide1:0.deviceType = "cdrom-image"\n'
+               'ide1:0.fileName = "cd.iso"\nsata0:1.fileName = "second-%d.vmdk"\n') % (k, k)
+        key = bytes(rng.randrange(256) for _ in range(32))
+        text = E.vmx_text({".encoding": "UTF-8", "displayName": "enc"}, E.keysafe([E.pair_text("pw", key, rounds=1)]),
+                          E.blob(key, cfg.encode(), "HMAC-SHA-1", bytes(rng.randrange(256) for _ in range(16))))
+        want = sorted([f"enc disk {k}.vmdk", f"second-{k}.vmdk"])
+        v = VMX.parse(text)
+        hist = []
+        try:
+            if k % 2 == 0:
+                hist.append(["disks", list(v.disks())])
+            if k % 3 == 0:
+                try:
+                    v.unlock_with_phrase("wrong")
+                except Exception:  # noqa: BLE001
+                    hist.append(["unlock-wrong", "refused"])
+                hist.append(["disks", list(v.disks())])
+            v.unlock_with_phrase("pw")
+            got = list(v.disks())
+            got[:] = sorted(got)
+            again = sorted(v.disks())
+        except Exception as e:  # noqa: BLE001
+            ctx.violation({"kind": "vmx", "fail": "raised", "sub": "unlock-history"}, {"error": repr(e)[:200], "history": hist})
+            continue
+        ctx.case(key=("vmx-unlock-history", k), nontrivial=True)
+        if any(h[0] == "disks" and h[1] for h in hist) or got != want or again != want:
+            ctx.violation({"kind": "vmx", "fail": "disk-list-history", "sub": "unlock-history"}, {"history": hist, "got": got, "again": again, "want": want})
 
 
 def vmx_dictionary_semantics(ctx):
